@@ -308,6 +308,7 @@ static string RenderManifest(const Scenario& sc) {
     // statements with an even number bind `deps` themselves (below), the others get it from their rule
     if (s.deps == "gcc" && s.id % 2) m += "  deps = gcc\n";
     if (s.deps == "msvc" && s.id % 2) m += "  deps = msvc\n";
+    if (s.deps == "msvc" && s.id % 2 == 0) m += "  msvc_deps_prefix = Hinweis: Einlesen der Datei: \n";
     if (s.rsp) m += "  rspfile = " + RspPath(s) + "\n  rspfile_content = " + (s.rspver == 0 ? string("$nothing") : RspContent(s)) + "\n";
   }
   for (auto& s : sc.stmts) {
@@ -525,7 +526,8 @@ struct ModelRunner : public CommandRunner {
       if (st->deps == "depfile" || st->deps == "gcc")
         put(st->outs[0] + ".d", st->outs[0] + ": " + Join(r.hdrs) + "\n", false);
       if (st->deps == "msvc")
-        for (auto& h : r.hdrs) *output += "Note: including file: " + h + "\n";
+        // (the compiler of statements with an even number speaks another language: msvc_deps_prefix is a per-rule setting)
+        for (auto& h : r.hdrs) *output += string(st->id % 2 ? "Note: including file: " : "Hinweis: Einlesen der Datei: ") + h + "\n";
     } else if (fs->second.touch) {
       for (auto& o : outs) put(o, Term("garbage", "e" + to_string(st->id), {}), true);
       if (st->deps == "depfile" || st->deps == "gcc")
